@@ -411,7 +411,12 @@ func run(c *mon.Ctx) {
 						}
 					}
 					for _, l := range jpref.Eval(pre, pd, jpref.Res{Loc: []any{}, V: pd}) {
-						collected[locKey(l.Loc)] = true
+						switch l.V.(type) {
+						case map[string]any, []any:
+							collected[locKey(l.Loc)] = true
+						default:
+							// a scalar is never collected for a filter: other targets still see it
+						}
 					}
 				}
 			}
